@@ -282,6 +282,7 @@ def run_shard(spec, rec):
         feed(G.witness_dispatch_cases(rng), 800)
         feed(G.opcode_matrix(rng, range(256), 4), 400)
         feed(G.SigGen(rng, keys).p2pk_like(150), 100)
+        feed(G.boundary_s_cases(rng, keys), 300)
     elif kind == "mut":
         feed(G.corpus_mutations(rng, dd, spec["n"]), 3000)
     elif kind == "opm":
